@@ -57,7 +57,7 @@ OUTSIDE = ["logit reparameterisation with the independent sample set or more tha
 
 PARALLEL_UNITS = True
 MODS = ["nessai.proposal.importance", "nessai.samplers.importancesampler", "nessai.utils.rescaling", "nessai.utils.structures", "nessai.livepoint", "nessai.utils.stats"]
-NAMES = ["x"]
+NAMES = ["x", "y"]
 
 
 @contextlib.contextmanager
@@ -213,7 +213,7 @@ def _Q(ctx, p, xrow, j):
     return p.flow.q(j - 1, list(xrow))
 
 
-def _check_rows(ctx, p, samples, log_q, weights, label, mut=None):
+def _check_rows(ctx, p, samples, log_q, weights, label, mut=None, density_only=False):
     """The invariant of the statement on a set of samples with their density table."""
     snp = _snp(ctx)
     names = p.model.names
@@ -230,6 +230,8 @@ def _check_rows(ctx, p, samples, log_q, weights, label, mut=None):
             term = weights[j] * snp.exp(Qj)
             tot = term if tot is None else tot + term
         ctx.prove_eq(samples["logQ"][i], snp.log(tot), label + ": stored meta-proposal density = log of the weighted mixture")
+        if density_only:
+            continue
         ctx.prove_eq(samples["logW"][i], samples["logU"][i] - samples["logQ"][i], label + ": stored log-weight = unit-cube log-prior - meta-proposal density")
         ctx.prove(AND(*[(v >= 0) & (v <= 1) for v in row]), label + ": sample lies in the unit hypercube")
 
@@ -241,7 +243,7 @@ def _eps_ok(ctx, p, v):
     return (v >= eps) & (v <= 1 - eps)
 
 
-def make_draw(d, n_flows, reparam, n, vanishing_prior=False):
+def make_draw(d, n_flows, reparam, n, vanishing_prior=False, density_only=False):
     def body(ctx):
         mut = getattr(ctx, "mutant", None)
         P = n_flows + 1
@@ -259,7 +261,16 @@ def make_draw(d, n_flows, reparam, n, vanishing_prior=False):
             for nm in p.model.names:
                 for i in range(len(samples)):
                     ctx.assume(_eps_ok(ctx, p, samples[nm][i]))
-        _check_rows(ctx, p, samples, log_q, w, "draw", mut)
+        _check_rows(ctx, p, samples, log_q, w, "draw", mut, density_only=density_only)
+        if density_only:
+            # the same points passed forwards through the proposal: density computed = density attached at generation
+            logQ2, log_q2 = p.compute_meta_proposal_samples(samples)
+            for i in range(len(samples)):
+                for j in range(P):
+                    ctx.prove_eq(log_q2[i, j], log_q[i, j], "density computed for a generated point passed forwards = density attached at generation")
+                ctx.prove_eq(logQ2[i], samples["logQ"][i], "meta-proposal density computed forwards = the one attached at generation")
+            ctx.cover("end")
+            return
         ctx.prove(abs(sum(p.weights_array) - 1.0) < 1e-12, "mixture weights sum to one")
         ctx.cover("end")
     return body
